@@ -1,5 +1,42 @@
-(* Wire entry points of the C14 model (stub until the model is built). *)
-From Coq Require Import ZArith List.
-From SG Require Import Base.Sx.
+(* Wire entry points of the C14 model: the resume theorem's machine instantiated on a recorded observation stream. *)
+From Coq Require Import ZArith List Bool QArith Qcanon.
+From SG Require Import Base.Sx Base.QcUtil Model.Driver Entry.C13.
+Import ListNotations.
 Open Scope Z_scope.
-Definition entry_C14 (sub : Z) (a : sx) : sx := sx_err 0.
+
+(* St = position in the stream; evaluating an evaluated position changes nothing (the idempotence hypothesis holds by
+   construction); refine moves on to the next evaluation *)
+Definition stream_run (lim : limits) (stream : list obs) (start : nat) : option nat :=
+  match stream with
+  | [] => None
+  | o0 :: _ =>
+      match run nat (fun k => k) S (fun k => nth k stream o0) lim (length stream - start) start with
+      | Some k => if Nat.ltb k (length stream) then Some k else None
+      | None => None
+      end
+  end.
+
+Definition of_optnat (o : option nat) : sx := match o with Some k => Zv (Z.of_nat k) | None => Zv (-1) end.
+
+(* sub 0: (l1 l2 stream) with li = (tol min max)
+     -> (index where the single run with l2 stops, index where the run with l1 stops, index where its continuation with l2 stops,
+         driver state of the single run, driver state after stop+continue (history arrays contain the re-evaluation)) *)
+Definition entry_C14 (sub : Z) (a : sx) : sx :=
+  match sub, a with
+  | 0, Lv [Lv [t1; m1; x1]; Lv [t2; m2; x2]; os] =>
+      match get_limits t1 m1 x1, get_limits t2 m2 x2, get_obs_list os with
+      | Some l1, Some l2, Some stream =>
+          let single := stream_run l2 stream 0 in
+          let first := stream_run l1 stream 0 in
+          let resumed := match first with Some k => stream_run l2 stream k | None => None end in
+          let '(s_single, b_single) := perform l2 stream in
+          let '(s1, b1) := perform l1 stream in
+          let '(s2, b2) := match first with
+                           | Some k => drive l2 (skipn k stream) s1
+                           | None => (s1, false)
+                           end in
+          Lv [of_optnat single; of_optnat first; of_optnat resumed; of_dstate s_single b_single; of_dstate s2 (b1 && b2)]
+      | _, _, _ => sx_err 1
+      end
+  | _, _ => sx_err 0
+  end.
